@@ -873,6 +873,9 @@ def run(ctx, only_cases=None):
         "samples": samples,
         "input_distribution": {
             "mem_histories": sum(1 for c in timed if c["mode"] == "mem"), "redis_histories": sum(1 for c in timed if c["mode"] == "redis"),
+            "value_isolation_scenarios": {bk: sum(1 for c in timed if c["mode"] == "iso" and c["backend"] == bk) for bk in ("mem", "redis", "hybrid")},
+            "answers_retained_and_recompared_after_every_later_call": sum(1 for c, o in zip(timed, outs) if c["mode"] in ("iso", "mem")
+                                                                          for a, b in zip(o.get("obs", []), o.get("obs_end", [])) if a and a[0] in ("v", "copy")),
             "both_backends_side_by_side": sum(1 for c in timed if c["mode"] == "both"),
             "calls_compared_between_the_two_real_backends": sum(o.get("cross", 0) for o in outs),
             "collection_boundary_histories": sum(1 for c in timed if c.get("boundary")),
